@@ -640,7 +640,7 @@ def execute(spec, file_based=False, broken_module=False, keep_world=False):
     from native import _boot
     runner_mod = _boot.boot()
     _counter[0] += 1
-    modname = 'nw%d_%d' % (os.getpid() % 100000, _counter[0])
+    modname = 'nw_%d' % _counter[0]
     obs = Obs()
     obs.spec = spec
     obs.modname = modname
